@@ -715,8 +715,12 @@ def read_tabulate(it, tab, idx):
         return None
     out = val.xreplace(subs)
     remaining = [lv for lv in loopvars if lv not in subs]
-    if fname(out) == "ite":
-        pass
+    keep = op("keep")
+    if out.has(keep) and not remaining and not rest and fname(base) not in ("empty", "empty_like"):
+        # a pass that does not store leaves what the buffer held before the loop (e.g. a zero fill ahead of the loop)
+        prior = element_of(it, base, idx)
+        if not (fname(prior) == "item" and prior.args[0] == base):
+            out = out.xreplace({keep: prior})
     if rest and any(not (fname(r) == "slc" and r.args == (NONE_T, NONE_T, NONE_T)) for r in rest):
         # the stored value is a row (or slab): its element is the same expression of the operands' elements
         out = index_slab(it, out, rest)
